@@ -48,6 +48,19 @@ def f_none(x):
     return None
 
 
+def f_stop3(x):
+    # a callable that lets StopIteration escape (e.g. next() on an exhausted helper iterator): an error, never "end of stream"
+    if khash(x) % 3 == 0:
+        raise StopIteration('f-stop', khash(x) % 1000)
+    return ('s', x)
+
+
+def p_stop4(x):
+    if khash(x) % 4 == 0:
+        raise StopIteration('p-stop', khash(x) % 1000)
+    return khash(x) % 2 == 0
+
+
 def p_even(x):
     return khash(x) % 2 == 0
 
@@ -82,7 +95,7 @@ def materialize(kv):
     return (kv[0], list(kv[1]))
 
 
-FUNCS = {f.__name__: f for f in (f_tag, f_tag_kw, f_fail5, f_ident, f_errval, f_none, p_even, p_mod3_kw, p_fail7, k_mod2, k_mod3_kw, acc, acc_kw)}
+FUNCS = {f.__name__: f for f in (f_tag, f_tag_kw, f_fail5, f_ident, f_errval, f_none, f_stop3, p_stop4, p_even, p_mod3_kw, p_fail7, k_mod2, k_mod3_kw, acc, acc_kw)}
 
 EXC = {'Boom': Boom, 'Exception': Exception, 'ValueError': ValueError, 'LookupError': LookupError, 'KeyError': KeyError, None: None}
 
@@ -263,6 +276,7 @@ def alphabet(n):
         ['parmap', 'f_tag', 1, False, False], ['parmap', 'f_fail5', 2, False, True], ['parmap', 'f_fail5', 2, True, False],
         ['parmap', 'f_tag_kw', 2, True, True, {'suffix': 'q'}],
         ['parmap', 'f_ident', 2, False, False], ['parmap', 'f_errval', 2, False, False], ['parmap', 'f_errval', 1, True, True], ['map', 'f_errval'], ['map', 'f_none'], ['parmap', 'f_none', 2, False, False],
+        ['map', 'f_stop3'], ['filter', 'p_stop4'],
         ['shuffle', 2],
     ]
     return ops
